@@ -811,7 +811,7 @@ def storage_revisions(st, off=0, revs=None):
             v = record_value(r.data) if r.data is not None else None
             revs.setdefault(u64(r.oid) + off, []).append((u64(r.tid), v))
     for l in revs.values():
-        l.sort()
+        l.sort(key=lambda r: r[0])
     return revs
 
 
@@ -1017,8 +1017,17 @@ def run_case(case, tmp, with_trace=False, schedule=None):
         s0.hooks = list(hooks)
         s0.spawn('setup', setup)
         r0 = s0.run(timeout=60)
+        def setup_verdict(msg):
+            # the implementation failed during the set-up commits: a verdict with this case as failing
+            # input (an InfraError / exit 2 on a changed tree would be neither caught nor clean)
+            shutil.rmtree(d, ignore_errors=True)
+            return dict(deadlock=False, kind=case['kind'], thread_errors={'setup': msg}, epochs=[], commits=[],
+                        revs={}, errors=[], pool_bad=[], values={}, trace=None, trace_expect=None,
+                        decisions=[], steps=0, setup_tid=0)
         if r0['deadlock'] or r0['errors']:
-            raise InfraError('C02 set-up failed: %r' % (r0['errors'],))
+            return setup_verdict('set-up %s: %s' % ('deadlocked' if r0['deadlock'] else 'failed',
+                                 {k: (v if isinstance(v, str) else type(v).__name__ + ':' + str(v)[:200])
+                                  for k, v in r0['errors'].items()}))
         db, st = box['db'], box['st']
         setup_tid = u64(st.lastTransaction())
         t_pack = clk.now + 0.5
@@ -1028,7 +1037,7 @@ def run_case(case, tmp, with_trace=False, schedule=None):
             cm['ret'] = 0
             cm['thread'] = 'setup'
         if nobj2 and not any(cm.get('off') for cm in run.commits):
-            raise InfraError('C02 set-up: no commit reached the second database')
+            return setup_verdict('set-up: no commit reached the second database')
         run.ev = 1
         if case.get('pct') and schedule is None:
             s = PCTScheduler(case['seed'], case['pct'][0], case['pct'][1], max_steps=400000)
@@ -1105,6 +1114,12 @@ def oracle(obs):
         out.append(('C02:pool-mutex', 'FilePool handed a reader file out while a finisher was writing (%s)'
                     % obs['pool_bad'][0]))
     revs = obs['revs']
+    for oid, rl in sorted(revs.items()):
+        dup = [a[0] for a, b in zip(rl, rl[1:]) if a[0] == b[0]]
+        if dup:
+            out.append(('C02:duplicate-revision-tid', 'the final storage holds two revisions of oid %d under the '
+                        'same tid %x: two commits shared a transaction id' % (oid, dup[0])))
+            return out
     commits = sorted(obs['commits'], key=lambda c: c['ret'])
     for ep in obs['epochs']:
         lo, hi = -1, INF
@@ -1194,6 +1209,13 @@ def run_batch(args):
             obs = run_case(case, tmp, with_trace=with_trace)
         except InfraError:
             raise
+        except Exception as e:      # noqa: BLE001
+            # an observation of the implementation the harness could not digest is a verdict with the
+            # case as failing input, never an exit 2
+            out['evals'] += 1
+            out['bad'].append(('C02:error', 'unexpected %s while running / observing the case: %s'
+                               % (type(e).__name__, str(e)[:200]), case))
+            continue
         verdict = oracle(obs)
         nt = nontrivial(obs)
         out['evals'] += 1
@@ -1254,7 +1276,12 @@ def shrink(case, tmp, sig):
 
     small = ddmin(flat, fails, max_tests=120)
     c = build(small)
-    if not any(s == sig for s, _ in oracle(run_case(c, tmp))):
+    try:
+        if not any(s == sig for s, _ in oracle(run_case(c, tmp))):
+            return case
+    except InfraError:
+        raise
+    except Exception:               # noqa: BLE001
         return case
     return c
 
@@ -1311,8 +1338,14 @@ def main(argv=None):
         if sig in seen:
             continue
         seen.add(sig)
-        small = shrink(case, ck.tmp, sig)
-        obs = run_case(small, ck.tmp)
+        try:
+            small = shrink(case, ck.tmp, sig) if sig != 'C02:error' else case
+            obs = run_case(small, ck.tmp)
+        except InfraError:
+            raise
+        except Exception:           # noqa: BLE001  (the case itself is the failing input)
+            ck.violation(sig, what, dict(case=case))
+            continue
         v = [x for x in oracle(obs) if x[0] == sig] or [(sig, what)]
         ck.violation(sig, v[0][1], dict(case=small, decisions=obs.get('decisions'),
                                         commits=obs.get('commits'),
